@@ -69,8 +69,8 @@ LEMMAS = {
         statement='a, a\' > 0 joint values pi_k p_k(y_n) before / after an update, gamma = a / sum_k a: '
                   'sum gamma log a <= sum gamma log a\'  =>  sum_n log sum_k a <= sum_n log sum_k a\'; '
                   'pi = c / sum c maximises sum_k c_k log pi_k on the simplex   (all K, N)',
-        assumptions=['each component update does not decrease its part of the expected complete-data log-likelihood '
-                     '(ML estimators in closed form, cACG / Watson fixed-point steps): cited, not machine checked']),
+        assumptions=['each component update does not decrease its part of the expected complete-data log-likelihood: machine checked for the Gaussian '
+                     'components (lean/GaussMStep.lean); cACG (Tyler MM step) and Watson (concentration equation) fixed-point steps: cited, not machine checked']),
     'oracle': dict(
         file='lean/Oracle.lean', theorems=['perm_max_exists', 'euclidean_restores', 'multiply_restores', 'cos_restores', 'unique_maximiser'],
         statement='estimate rows e_k = r_{pi k} (a permutation of the reference rows), score S[k, j] = sim(r_k, e_j), sigma ANY maximiser of '
@@ -86,6 +86,27 @@ LEMMAS = {
                   'A^H w = r for w = Phi^-1 A (A^H Phi^-1 A)^-1 r; w = Phi^-1 a / (a^H Phi^-1 a) satisfies a^H w = 1 and Phi w = a / (a^H Phi^-1 a); '
                   'the Rayleigh quotient of c w equals that of w (c != 0); for Phi_xx = s a a^H: Phi_nn^-1 Phi_xx u / tr(Phi_nn^-1 Phi_xx) = '
                   '(a^H u / a^H Phi_nn^-1 a) Phi_nn^-1 a'),
+    'simplex': dict(
+        file='lean/Simplex.lean', theorems=['posterior_simplex', 'masked_posterior', 'clipped_sum_bound', 'normalise_perm_equivariant',
+                                            'sum_perm_invariant', 'multiset_perm_invariant', 'mapping_injective_is_perm', 'saliency_repetition',
+                                            'saliency_repetition_vec', 'weights_mean_simplex', 'unit_norm_outer_invariant', 'sxr_reciprocal_identity'],
+        statement='for every number of classes K / observations N / channels D: a_k >= 0 with positive sum => a / sum a lies in [0, 1] and sums to one '
+                  '(also with a 0/1 mask and the tiny floor); clipping to [eps, 1 - eps] moves the sum by at most K eps; normalisation, sums and '
+                  'multisets commute with permutations of the class axis; an injective mapping of a finite class set is a permutation; an integer '
+                  'saliency s_n is n repeated s_n times; (saliency-weighted) means of simplex vectors lie on the simplex; the outer product of the '
+                  'unit-norm projection does not depend on a complex gain; 1/SDR = 1/SIR + 1/SNR and SDR <= min(SIR, SNR)'),
+    'gauss_mstep': dict(
+        file='lean/GaussMStep.lean', theorems=['weighted_mean_minimises', 'gauss_core', 'gauss_ml_scalar', 'gauss_ml_diagonal', 'gauss_ml_spherical',
+                                               'logdet_le_trace_sub_card', 'logdet_mul_le_trace_sub_card', 'weighted_cross_shift',
+                                               'weighted_quadform_split', 'gauss_ml_full'],
+        statement='for every number of observations N and every dimension D, class posteriors gamma_n with positive mass: the weighted sample mean '
+                  'and the weighted (per-coordinate / pooled / full) scatter MAXIMISE the class part of the expected complete-data log-likelihood '
+                  'sum_n gamma_n log N(x_n; mu, Sigma) over all means and all positive (definite) covariances -- diagonal, spherical and full '
+                  'covariance; with lean/Em.lean: one EM iteration of the Gaussian mixture cannot decrease the log-likelihood',
+        assumptions=['composition by instantiation: C08 discharges per shape that Gaussian / DiagonalGaussian / SphericalGaussian trainers return exactly '
+                     'these weighted estimators and that the weight update returns the normalised expected counts; C01 that the E-step is the exact '
+                     'posterior; the Lean theorems (Em.lean, GaussMStep.lean) then give monotonicity for every K, N, D in exact arithmetic',
+                     'the variance floor / regularisation of the trainers is not part of the Lean statement (positive (definite) estimate is a hypothesis)']),
     'logdet': dict(
         file='lean/LogDet.lean', theorems=['det_cholesky', 'log_det_cholesky'],
         statement='L lower triangular with positive diagonal  =>  log det(L L^T) = 2 sum_i log L_ii   (all dimensions)'),
@@ -237,3 +258,24 @@ def bingham_trainer_bounded_instance(prop):
 
     return Instance(prop, 'pb_bss.distribution.complex_bingham:ComplexBinghamTrainer.fit', 'bounded-bingham-estimator-and-domain', make, call,
                     ensures, mode='bounded', bounded_n=60, frame=False)
+
+
+# lemmas of lean/Simplex.lean that lift per-shape obligations of a property to every K / N / D
+SIMPLEX_USE = {
+    'C01': ('lemma:posteriors-lie-on-the-simplex-for-every-K', ['posterior_simplex', 'masked_posterior']),
+    'C04': ('lemma:unit-norm-outer-product-is-gain-invariant-for-every-D', ['unit_norm_outer_invariant']),
+    'C05': ('lemma:normalisation-and-class-sums-commute-with-relabelling-for-every-K', ['normalise_perm_equivariant', 'sum_perm_invariant']),
+    'C08': ('lemma:integer-saliency-is-repetition-for-every-N', ['saliency_repetition', 'saliency_repetition_vec']),
+    'C09': ('lemma:weights-on-the-simplex-and-clipping-bound-for-every-K', ['weights_mean_simplex', 'clipped_sum_bound']),
+    'C14': ('lemma:permutations-preserve-sums-and-multisets-for-every-K', ['sum_perm_invariant', 'multiset_perm_invariant', 'mapping_injective_is_perm']),
+    'C18': ('lemma:ratio-masks-lie-on-the-simplex-for-every-K', ['posterior_simplex']),
+    'C19': ('lemma:reciprocal-sxr-identity', ['sxr_reciprocal_identity']),
+}
+
+
+def simplex_lemma_instances(prop):
+    if prop not in SIMPLEX_USE:
+        return []
+    func, ths = SIMPLEX_USE[prop]
+    inst = lemma_instance(prop, 'simplex', func, ths)
+    return [inst]
